@@ -36,7 +36,7 @@ Repl(i, s) == SubSeq(toks, 1, i-1) \o s \o SubSeq(toks, i+1, Len(toks))
 \* after a statement the block either ends or continues with another hole
 Cont(h) == IF h.rem > 1 THEN {<<>>, <<Hole(h.d, h.lp, h.fin, h.rem - 1, h.fn)>>} ELSE {<<>>}
 Sub(h, lp, fin) == Hole(h.d + 1, lp, fin, MaxLen, h.fn)
-Productions == {"s", "if", "ifelse", "while", "for", "with", "tryf", "trye", "tryef", "whileelse", "forelse", "def",
+Productions == {"s", "if", "ifelse", "while", "for", "with", "tryf", "trye", "tryef", "tryel", "tryelf", "whileelse", "forelse", "def",
                 "break", "continue", "return", "raise"}
 Named(name, seq) == IF name \in Allowed THEN {seq} ELSE {}
 Compound(h) ==
@@ -49,6 +49,10 @@ Compound(h) ==
   \cup Named("tryf", <<Tk("try"), Sub(h, h.lp, h.fin), Tk("finally"), Sub(h, FALSE, TRUE), Tk("end")>>)
   \cup Named("trye", <<Tk("try"), Sub(h, h.lp, h.fin), Tk("except"), Sub(h, h.lp, h.fin), Tk("end")>>)
   \cup Named("tryef", <<Tk("try"), Sub(h, h.lp, h.fin), Tk("except"), Sub(h, h.lp, h.fin), Tk("finally"), Sub(h, FALSE, TRUE), Tk("end")>>)
+  \* try / except / else ( / finally): the else clause runs when the body completes normally
+  \cup Named("tryel", <<Tk("try"), Sub(h, h.lp, h.fin), Tk("except"), Sub(h, h.lp, h.fin), Tk("else"), Sub(h, h.lp, h.fin), Tk("end")>>)
+  \cup Named("tryelf", <<Tk("try"), Sub(h, h.lp, h.fin), Tk("except"), Sub(h, h.lp, h.fin), Tk("else"), Sub(h, h.lp, h.fin),
+                        Tk("finally"), Sub(h, FALSE, TRUE), Tk("end")>>)
   \cup (IF LoopElse THEN
         Named("whileelse", <<Tk("while"), Sub(h, TRUE, h.fin), Tk("else"), Sub(h, h.lp, h.fin), Tk("end")>>)
         \cup Named("forelse", <<Tk("for"), Sub(h, TRUE, h.fin), Tk("else"), Sub(h, h.lp, h.fin), Tk("end")>>) ELSE {})
